@@ -7,7 +7,7 @@ from xvcore import h12
 from xvgen import plans, xpctx
 from xvengine import planrun
 
-TIMEOUT = {"quick": 1200, "thorough": 14400}
+TIMEOUT = {"quick": 2400, "thorough": 14400}
 SHARDS = {"quick": 16, "thorough": 16}
 
 
